@@ -300,7 +300,7 @@ def make_pow_query(exe, cfg):
 
 
 def run(chk, replay=None):
-    proof = proof_check_streams(PID, "C02Streams")
+    proof = proof_check_streams(PID, "C02Streams", extra=("C16Slots",))
     drv = build_driver()
     exe = build_harness("default")
     cfg = harness_config(exe)
